@@ -48,8 +48,8 @@ ASTROPY_FRAME = {'icrs': 'icrs', 'fk5': 'fk5', 'fk4': 'fk4', 'galactic': 'galact
 # values with long decimal expansions so that every precision 1..12 really rounds something
 SKY_POS = [(10.5, 0.0), (187.705931234567, 12.391123456789), (0.001, -85.5), (359.999, 45.000000000049)]
 PIX_POS = [(1.5, -3.25), (4096.123456789012, 0.000123456789), (0.0, 1.5), (-3.254999999999, 4096.125)]
-SKY_SIZES = [(3.123456789012, 'arcmin'), (0.5, 'arcsec'), (2.5, 'deg'), (0.01, 'rad')]
-PIX_SIZES = [7.123456789012, 0.125, 1.0, 1000.0]
+SKY_SIZES = [(3.123456789012, 'arcmin'), (0.5, 'arcsec'), (2.5, 'deg'), (0.01, 'rad'), (0.25, 'arcsec')]
+PIX_SIZES = [7.123456789012, 0.125, 1.0, 1000.0, 0.000244140625]
 ANGLES = [30.0, 123.456789012345, 0.0, -60.0]
 DEG = {'arcsec': 1 / 3600.0, 'arcmin': 1 / 60.0, 'deg': 1.0, 'rad': 180.0 / math.pi}
 
@@ -558,9 +558,9 @@ def check_seeds(res):
 # ------------------------------------------------------------------ driver --
 def geom_cases(tier):
     if tier == 'quick':
-        precs, poss, sizes, angles = [1, 3, 8, 10, 12], [0, 1], [0, 1], [30.0, 123.456789012345]
+        precs, poss, sizes, angles = [1, 3, 8, 10, 12], [0, 1], [0, 1, 4], [30.0, 123.456789012345]
     else:
-        precs, poss, sizes, angles = list(range(1, 13)), [0, 1, 2, 3], [0, 1, 2, 3], ANGLES
+        precs, poss, sizes, angles = list(range(1, 13)), [0, 1, 2, 3], [0, 1, 2, 3, 4], ANGLES
     out = []
     for shape in SHAPES:
         has_angle = shape in ('ellipse', 'rectangle', 'ellipseannulus', 'rectangleannulus')
